@@ -9,6 +9,7 @@ from ..e2e import run_case
 from ..refprinter import tokenize, last_values
 from ..harness import DEFAULT_EXT
 
+RESYNC = re.compile(r"^(G92 E\S+|G0 F\S+( [XYZ]\S+)+|G90|G91)$")
 GRAMMAR = re.compile(r"^[GM]\d+(\.\d+)?( [A-Z]([-+]?(\d+\.?\d*|\.\d+))?)*$")
 REL = 1e-9
 
@@ -120,10 +121,9 @@ class C07(MotionMonitor):
         unitB = r["B_after"]["unit"]
         if r["closed"]:
             # [deferred..., exit script..., G92 E, (G90), G0 Z?, G0 X Y, G0 Z?, (G91)]
-            idx = max([k for k, c in enumerate(gen) if c.startswith("G92 E")] or [-1])
-            if idx < 0:
-                out.append(viol(tr, r, "exit-sequence-without-g92e", "generated %r" % (gen,)))
-                return out
+            idx = len(gen)
+            while idx > 0 and RESYNC.match(gen[idx - 1]):
+                idx -= 1
             head, tail = gen[:idx], gen[idx:]
             for c in head:
                 code, _, words = tokenize(c)
